@@ -863,6 +863,28 @@ def special_programs():
         'contract A { function g(bool c) public { require(c, "msg"); } }\ninterface I { error Bad(); }\n')
     add('wrapped-findings', PRELUDE + 'contract A {\n  function f(uint a, uint b, uint c, uint d) public returns (uint) {\n    uint r = (a *\n      b) + (c * d);\n    require(a >=\n      b && c <= d, "x");\n'
         '    r = a /\n 2 * b + c / 4 * d;\n    return r;\n  }\n}')
+    # --- wave 6
+    add('literal-products', PRELUDE + 'contract A { uint x; function f(uint a) public {\n  x = ' + ' * '.join(['1'] * 48) + ';\n  x = ' + ' * '.join(['0'] + [str(3 + k % 7) for k in range(47)]) +
+        ';\n  x = a * (' + ' * '.join(['2'] * 40) + ');\n  x = ' + ' + '.join(['1'] * 48) + ';\n  x = a / (' + ' * '.join(['(1 * 1)'] * 24) + ');\n} }')
+    add('literal-tree', PRELUDE + 'contract A { uint x; function f(uint a) public { x = a * ' + '(' * 0 + ' * '.join(['(' + ' * '.join(['(1 * 2)'] * 4) + ')'] * 8) + '; } }')
+    for v in ('0.8.3', '0.8.10', '0.7.6'):
+        add('string-escapes-' + v, 'pragma solidity %s;\ncontract A {\n  function f(bool c) public {\n    require(c, "\\ud83d\\ude80 surrogate pair");\n    require(c, "e-acute \\u00e9 and more text to be long enough here");\n'
+            '    require(c, "\\x41\\x42 hex escapes");\n    require(c, "tab\\there and a quote \\" inside the message text");\n    require(c, "back\\\\slash");\n    require(c, unicode"caf\u00e9 \u2713");\n'
+            '    require(c, "\\udfff lone low surrogate");\n    require(c, "\\uZZZZ not hex");\n    require(c, "ends with backslash-u \\u12");\n    require(c, hex"4142");\n  }\n}' % v)
+    for v in ('0.7.6', '0.8.10'):
+        add('safemath-near-names-' + v, 'pragma solidity %s;\nlibrary SafeMath { }\ncontract A {\n  using SafeMath for uint256;\n  function f(uint256 x, uint256 y) public {\n    x.d(y);\n    x.a(y);\n    x.mu(y);\n    x.iv(y);\n'
+            '    x.ub(y);\n    pool.s();\n    x.adds(y);\n    x.Add(y);\n    x.div_(y);\n    x.add(y);\n    x.sub(y);\n    x.mul(y);\n    x.div(y);\n    x.mod(y);\n    x.b(y);\n    x.dd(y);\n    x.u(y);\n  }\n}' % v)
+    add('no-function-word', PRELUDE + 'contract Proxy {\n  fallback() external { }\n  receive() external payable { }\n  constructor() public { }\n}\ncontract P2 {\n  constructor() { }\n  fallback() external payable { }\n}')
+    add('modifier-between-fn-and-ctor', PRELUDE + 'contract A {\n  function f() public {}\n  modifier m() { _; }\n  constructor() {}\n}\ncontract B {\n  receive() external payable {}\n  modifier m1() { _; }\n  modifier m2() { _; }\n  constructor() {}\n}\n'
+        'contract C {\n  modifier m() { _; }\n  constructor() {}\n  function f() public {}\n}\ncontract D {\n  function f() public {}\n  uint x;\n  event E();\n  constructor() {}\n}')
+    add('abstract-and-library-selfdestruct', PRELUDE + 'abstract contract Killable {\n  address owner;\n  function kill() public {\n    selfdestruct(payable(owner));\n  }\n}\nlibrary Lk {\n  function k() public {\n    selfdestruct(payable(address(0)));\n  }\n}\n'
+        'interface Ik { function kill() external; }\ncontract Plain {\n  function kill() external {\n    suicide(payable(msg.sender));\n  }\n}')
+    add('abstract-ctor-after-contract', PRELUDE + 'contract A {\n  function f() public {}\n}\nabstract contract B {\n  constructor() {}\n  function g() public {}\n}\nlibrary L {\n  function h() internal {}\n}\n'
+        'abstract contract C2 {\n  constructor() {}\n}\ninterface I { function q() external; }\ncontract D {\n  constructor() {}\n  function r() public {}\n}')
+    add('near-power-of-two-literals', PRELUDE + 'contract A { function f(uint a) public returns (uint) { a = a * 9007199254740993; a = a / 18446744073709551615; a = a * 18446744073709551617; '
+        'a = a * 340282366920938463463374607431768211455; a = a * 115792089237316195423570985008687907853269984665640564039457584007913129639935; a = a * 4294967297; a = a / 9007199254740992; return a * 4503599627370497; } }')
+    add('nested-assignments', PRELUDE + 'contract A {\n  uint last; uint total; address owner; bool flag;\n  event Ev(uint v);\n  function f(uint amount, address who) public returns (address) {\n    uint local = last = amount;\n    total = last = amount + 1;\n'
+        '    if ((flag = amount > 1)) { emit Ev(total = amount); }\n    g(last = 3);\n    return owner = who;\n  }\n  function g(uint v) internal { }\n}')
     return P
 
 
